@@ -208,6 +208,10 @@ def float_finite(model, b):
             with torch.no_grad():
                 model(b)
             lim = torch.finfo(b.dtype).max / 8
+            if any(isinstance(m, torch.nn.LayerNorm) for m in model.modules()):
+                # LayerNorm squares its input: keep a wide margin below sqrt(max) so that the *quantized* model (whose
+                # int2/int4 layers can be far from their float twins) does not overflow inside the float kernel either
+                lim = min(lim, torch.finfo(b.dtype).max ** 0.5 / 64)
             if all(torch.isfinite(o).all() and float(o.abs().max()) < lim for o in seen):
                 return b
             b = b * 1e-2
@@ -240,6 +244,13 @@ def part_calibration(ctx, oq, n):
             act = ["qint8", "qfloat8_e4m3fn", "qfloat8_e5m2"][rng.integers(3)]
             wq = ["qint8", "qfloat8", "qint4", "qint2"][rng.integers(4)]
             mk = ["linear", "conv", "layernorm", "chain"][rng.integers(4)]
+            seq = [BATCH_KINDS[rng.integers(len(BATCH_KINDS))] for _ in range(int(rng.integers(1, 5)))]
+            if rng.random() < 0.5:
+                seq[int(rng.integers(len(seq)))] = ["zeros", "constant", "tiny", "huge"][rng.integers(4)]
+            desc = dict(part="calibration", dtype=str(wd), activations=act, weights=wq, model=mk, batches=seq)
+            if not ctx.case(desc):
+                continue
+            crng = ctx.crng  # everything below (torch init included) is seeded by the case
             if mk == "linear":
                 model = torch.nn.Sequential(torch.nn.Linear(16, 8))
                 shape = (4, 16)
@@ -253,14 +264,8 @@ def part_calibration(ctx, oq, n):
                 model = torch.nn.Sequential(torch.nn.Linear(16, 16), torch.nn.LayerNorm(16), torch.nn.Linear(16, 8))
                 shape = (4, 16)
             model = model.to(wd).eval()
-            seq = [BATCH_KINDS[rng.integers(len(BATCH_KINDS))] for _ in range(int(rng.integers(1, 5)))]
-            if rng.random() < 0.5:
-                seq[int(rng.integers(len(seq)))] = ["zeros", "constant", "tiny", "huge"][rng.integers(4)]
-            desc = dict(part="calibration", dtype=str(wd), activations=act, weights=wq, model=mk, batches=seq)
-            batches = [float_finite(model, make_batch(rng, k, shape, wd)) for k in seq]
-            infer = [float_finite(model, make_batch(rng, "ordinary", shape, wd)) for _ in range(2)] + [batches[-1]]
-            if not ctx.case(desc):
-                continue
+            batches = [float_finite(model, make_batch(crng, k, shape, wd)) for k in seq]
+            infer = [float_finite(model, make_batch(crng, "ordinary", shape, wd)) for _ in range(2)] + [batches[-1]]
             ctx.count("calibration_sequences")
             sig0 = dict(site="calibrate_then_infer", activations="float8" if "float8" in act else "int8",
                         dtype=str(wd), model=mk)
@@ -309,27 +314,31 @@ def part_zero_weight(ctx, oq, n):
         conv = rng.random() < 0.4
         bias = rng.random() < 0.7
         frozen = rng.random() < 0.5
+        xkind = ["ordinary", "huge", "constant", "zeros"][rng.integers(4)] if wd != torch.float16 else \
+            ["ordinary", "constant", "zeros"][rng.integers(3)]
         if conv:
-            cin, cout, k = int(rng.integers(1, 5)), int(rng.integers(1, 5)), int(rng.integers(1, 4))
-            layer = torch.nn.Conv2d(cin, cout, k, bias=bias, padding=int(rng.integers(0, 2)))
+            cin, cout, k, pad = int(rng.integers(1, 5)), int(rng.integers(1, 5)), int(rng.integers(1, 4)), int(rng.integers(0, 2))
             xshape = (2, cin, 5, 5)
         else:
             fin, fout = int(rng.choice([1, 3, 8, 16, 33, 160, 256])), int(rng.choice([1, 2, 8, 17]))
-            layer = torch.nn.Linear(fin, fout, bias=bias)
+            if gen.int8pack_crash_class(wd, wq, fin):
+                ctx.count("steered_around_known_crash_class")
+                fin += 1
             xshape = (int(rng.integers(1, 20)), fin)
         desc = dict(part="zero_weight", dtype=str(wd), weights=wq, conv=conv, bias=bias, frozen=frozen,
-                    xshape=list(xshape))
+                    xshape=list(xshape), x=xkind)
         if not ctx.case(desc):
             continue
+        rng_c = ctx.crng
+        layer = torch.nn.Conv2d(cin, cout, k, bias=bias, padding=pad) if conv else torch.nn.Linear(fin, fout, bias=bias)
         ctx.count("zero_weight_layers")
         with torch.no_grad():
             layer.weight.zero_()
             if bias:
-                layer.bias.copy_(torch.tensor(gen.loguniform(rng, 1e-3, 1e3, size=layer.bias.numel())
-                                              * rng.choice([-1, 1], layer.bias.numel())))
+                layer.bias.copy_(torch.tensor(gen.loguniform(rng_c, 1e-3, 1e3, size=layer.bias.numel())
+                                              * rng_c.choice([-1, 1], layer.bias.numel())))
         model = torch.nn.Sequential(layer).to(wd).eval()
-        x = make_batch(rng, ["ordinary", "huge", "constant", "zeros"][rng.integers(4)] if wd != torch.float16
-                       else ["ordinary", "constant", "zeros"][rng.integers(3)], xshape, wd)
+        x = make_batch(rng_c, xkind, xshape, wd)
         sig0 = dict(site="zero_weight_layer", family=wq if wq in ("qint4", "qint2") else
                     ("float8" if "float8" in wq else "int8"), dtype=str(wd), conv=conv)
         try:
